@@ -70,6 +70,8 @@ def run(rep, tier):
         r.lost("pest facts")
         return
     checked(rep, c)
+    subspan(rep, c)
+    indexscope(rep, c)
     lineof(rep, c)
     colunit(rep, c)
     pairpos(rep, c)
@@ -176,6 +178,96 @@ def checked(rep, c):
                             "character are accepted" % (b["name"], b["impl_self"].split("::")[-1]))
     if n < 2:
         r.lost("checked constructors Position::new / Span::new")
+
+
+# ------------------------------------------------------------------ SUBSPAN
+
+def subspan(rep, c):
+    r = rep.rule("C10.SUBSPAN", 1,
+                 "a sub-span taken relative to a span (Span::get) is validated against the span's own text "
+                 "(`self.as_str().get(range)`), not against the whole input: a range that runs past the span's end must "
+                 "be refused even when the input is long enough")
+    n = 0
+    for b in c.bodies:
+        if b.get("impl_self") != SPAN or b.get("body") is None or b.get("exp") or not b.get("exported"):
+            continue
+        if not str(b.get("output", "")).startswith("core::option::Option<" + SPAN) or not b["inputs"] \
+                or "Span" not in b["inputs"][0]:
+            continue
+        n += 1
+        key = b["name"]
+        r.instance(key, where(b["body"]))
+        gets = [x for x in walk(b["body"]) if kind(x) == "MethodCall" and x.get("path") == "core::str::<impl str>::get"]
+        own = []
+        for g in gets:
+            rc = peel(g["recv"])
+            if kind(rc) == "MethodCall" and rc.get("path") == SPAN + "::as_str":
+                own.append(g)
+            elif kind(rc) == "Index" and kind(peel(rc["base"])) == "Field" and peel(rc["base"])["name"] == "input":
+                own.append(g)     # &self.input[self.start..self.end]
+        if not own:
+            r.violation(key, where(b["body"]), "Span::%s does not validate the requested range with `get` on the span's own "
+                        "text: Span(0,2).get(0..7) of a longer input succeeds and yields a span outside its parent" % key)
+            continue
+        ctx = hirq.Ctx(b)
+        builds = [x for x in walk(b["body"]) if (kind(x) == "Struct" and x.get("path") == SPAN) or (
+            kind(x) == "Call" and str(callee(x)).startswith(SPAN + "::new"))]
+        for x in builds:
+            ok = False
+            for (a, k2, i) in ctx.ancestors(x):
+                if a.get("k") == "MethodCall" and a["m"] in ("map", "and_then") and k2 == "args" and any(peel(a["recv"]) is g for g in own):
+                    ok = True
+            for g in ctx.guards(x):
+                if g[0] in ("if", "let", "arm", "not"):
+                    node = g[1] if g[0] != "let" else g[1].get("init")
+                    if node is not None and any(y is o for y in walk(node if g[0] != "arm" else g[1]["scrut"]) for o in own):
+                        ok = True
+            if not ok:
+                r.violation(key, where(x), "Span::%s builds the sub-span on a path where `get` on the span's own text has "
+                            "not succeeded" % key)
+    if n == 0:
+        r.lost("Span::get (a method of Span returning Option<Span>)")
+
+
+# ------------------------------------------------------------------ INDEXSCOPE
+
+def indexscope(rep, c):
+    r = rep.rule("C10.INDEXSCOPE", 3,
+                 "the line index of a Pairs covers every position its pairs can have: `pairs::new` builds a prefix-only "
+                 "index (up to the last token) when it is given None, which is right only for a queue produced by the "
+                 "parser (positions never decrease); every other caller passes an index - an existing one, or one built "
+                 "over the whole input")
+    PN = "pest::iterators::pairs::new"
+    n = 0
+    for b in c.bodies:
+        if b.get("body") is None or b.get("exp") or "::tests::" in b["path"]:
+            continue
+        for x in walk(b["body"]):
+            if kind(x) == "Call" and callee(x) == PN and len(x["args"]) >= 3:
+                n += 1
+                a = peel(x["args"][2])
+                key = b["path"].replace("pest::", "")
+                lets = hirq.lets(b["body"])
+                d = 0
+                while d < 6 and kind(a) == "Path" and a.get("res") == "local" and a["id"] in lets:
+                    a = peel(lets[a["id"]][0])
+                    d += 1
+                is_none = kind(a) == "Path" and a.get("path") == "core::option::Option::None"
+                r.instance(key, where(x), "None" if is_none else "Some(..)")
+                if is_none:
+                    if b["path"] != "pest::parser_state::state":
+                        r.violation(key, where(x), "%s asks pairs::new for the prefix-only line index, but its token queue is "
+                                    "not the parser's: a pair that starts after the last token's position gets the line and "
+                                    "column of an earlier line (Pair::line_col disagrees with Position::line_col)" % b["name"])
+                    continue
+                # Some(..): either an existing index (a line_index field / clone) or LineIndex::new over a whole input
+                news = [y for y in walk(a) if kind(y) == "Call" and callee(y) == LINEINDEX + "::new"]
+                for y in news:
+                    arg = peel(y["args"][0])
+                    if kind(arg) == "Index":
+                        r.violation(key, where(y), "%s builds the line index over a slice of the input" % b["name"])
+    if n < 3:
+        r.lost("call sites of pairs::new")
 
 
 # ------------------------------------------------------------------ LINEOF
